@@ -12,6 +12,22 @@ MODULE = "ColaVerif.Properties.C20"
 CALLS = ["getitem"]
 CORPUS = os.path.join(common.ROOT, "harness", "corpus", "c20.jsonl")
 
+# Findings of this check that are not yet decided (fix in /repo or record in known_findings.json).  Treated as known.
+PROVISIONAL_KNOWN = {
+    "getitem-list-zip": {
+        "what": "A[[i...], [j...]] zips the two index lists: lists of different lengths are silently truncated to the shorter one "
+                "(NumPy broadcasts a length-1 list and raises IndexError 'shape mismatch' otherwise), and two empty lists raise "
+                "ValueError from stack([]) where NumPy returns an empty vector",
+        "call_site": "cola/ops/operator_base.py LinearOperator.__getitem__, case (list(li), list(lj))",
+        "witness": {"call": "getitem", "op": ["dense", "f64", 3, 4, [[0, 1, 2, 3], [4, 5, 6, 7], [8, 9, 10, 11]]],
+                    "ids": [{"l": [0, 1, 2]}, {"l": [1]}],
+                    "cola": "[1.]", "numpy": "[1., 5., 9.]",
+                    "more": ["A[[0,1,2],[1,2]] -> [1., 6.] (NumPy: IndexError shape mismatch)",
+                             "A[[],[]] -> ValueError need at least one array to stack (NumPy: empty vector)"]},
+        "lean_clause": "Op.EqualLenLists (Lemmas/OpIndex.lean), witness theorem C20.C20_listZip_clause_needed",
+    },
+}
+
 
 def primitive_stream(ctx):
     """Python slice / integer-array semantics (Basic/PySlice.lean) against CPython + numpy, exhaustively over
@@ -42,5 +58,74 @@ def primitive_stream(ctx):
     return {"primitive_cases": len(cases), "primitive_disagreements": len(bad), "primitive_exhaustive": True}
 
 
+def numpy_index_stream(ctx):
+    """The SPECIFICATION `Op.npIndex` (NumPy indexing of the represented matrix, Model/Index.lean) against NumPy itself on
+    the matrix arange(r*c): every index form of C20, in particular paired lists / index arrays of equal and different
+    lengths (broadcasting of a length-1 sequence, shape-mismatch IndexError, empty sequences, out-of-range entries)."""
+    import random
+    rng = random.Random(ctx.seed * 17 + 3)
+    cases, want = [], []
+
+    def canon(r):
+        r = np.asarray(r)
+        if r.ndim == 0:
+            return {"kind": "scalar", "value": [int(r), 0]}
+        if r.ndim == 1:
+            return {"kind": "vec", "value": [[int(x), 0] for x in r]}
+        return {"kind": "op", "rows": int(r.shape[0]), "cols": int(r.shape[1]), "value": [[[int(x), 0] for x in row] for row in r]}
+
+    def add(r, c, ids, pyids):
+        M = np.arange(r * c, dtype=np.int64).reshape(r, c)
+        cases.append({"id": len(cases), "call": "getitem", "op": ["dense", "f64", r, c, [[int(x) for x in row] for row in M]], "ids": ids})
+        try:
+            want.append(canon(M[pyids]))
+        except IndexError:
+            want.append({"kind": "err", "value": "index-error"})
+    shapes = [(1, 1), (2, 3), (3, 2), (3, 4)] if not ctx.thorough else [(1, 1), (1, 3), (2, 3), (3, 2), (3, 4), (4, 4), (5, 2)]
+    for (r, c) in shapes:
+        lens = [0, 1, 2, 3]
+        for la in lens:
+            for lb in lens:
+                for rep in range(2 if not ctx.thorough else 5):
+                    oob = rng.random() < 0.15
+                    a = [rng.randrange(-r, r + (1 if oob else 0)) for _ in range(la)]
+                    b = [rng.randrange(-c - (1 if oob else 0), c) for _ in range(lb)]
+                    add(r, c, [{"l": a}, {"l": b}], (a, b))
+                    add(r, c, [{"a": a}, {"a": b}], (np.array(a, dtype=np.int64), np.array(b, dtype=np.int64)))
+        for rep in range(6 if not ctx.thorough else 30):
+            i, j = rng.randrange(-r - 1, r + 1), rng.randrange(-c - 1, c + 1)
+            a = [rng.randrange(-r, r) for _ in range(rng.randint(0, 3))]
+            b = [rng.randrange(-c, c) for _ in range(rng.randint(0, 3))]
+            sa = [rng.choice([None, -2, -1, 0, 1, 2]) for _ in range(2)] + [rng.choice([None, 1, 2, -1, -2])]
+            sb = [rng.choice([None, -2, -1, 0, 1, 2]) for _ in range(2)] + [rng.choice([None, 1, 2, -1, -2])]
+            add(r, c, [{"i": i}], i)
+            add(r, c, [{"i": i}, {"i": j}], (i, j))
+            add(r, c, [{"i": i}, {"l": b}], (i, b))
+            add(r, c, [{"l": a}, {"i": j}], (a, j))
+            add(r, c, [{"i": i}, {"s": sb}], (i, slice(*sb)))
+            add(r, c, [{"s": sa}, {"i": j}], (slice(*sa), j))
+            add(r, c, [{"s": sa}], slice(*sa))
+            add(r, c, [{"s": sa}, {"s": sb}], (slice(*sa), slice(*sb)))
+            add(r, c, [{"s": sa}, {"a": b}], (slice(*sa), np.array(b, dtype=np.int64)))
+            add(r, c, [{"a": a}, {"s": sb}], (np.array(a, dtype=np.int64), slice(*sb)))
+    ans = oracle.run_driver(cases)
+    bad = []
+    for cs, w in zip(cases, want):
+        sp = ans.get(cs["id"], {}).get("spec")
+        got = None if sp is None else ({"kind": "err", "value": sp["value"]} if sp["kind"] == "err"
+                                       else {k: sp[k] for k in ("kind", "value", "rows", "cols") if k in sp})
+        if got != w:
+            bad.append((cs, w, got))
+    for (cs, w, g) in bad[:3]:
+        common.violation(ctx, {"broken": "specification stream: Op.npIndex (Model/Index.lean) disagrees with NumPy indexing",
+                               "case": cs, "numpy": w, "lean_spec": g}, no_input=True)
+    return {"numpy_index_cases": len(cases), "numpy_index_disagreements": len(bad)}
+
+
 def run(ctx):
-    c01.run(ctx, calls=CALLS, module=MODULE, corpus=CORPUS, extra=primitive_stream)
+    def extra(ctx):
+        out = primitive_stream(ctx)
+        out.update(numpy_index_stream(ctx))
+        out["provisional_known"] = PROVISIONAL_KNOWN
+        return out
+    c01.run(ctx, calls=CALLS, module=MODULE, corpus=CORPUS, extra=extra, provisional=PROVISIONAL_KNOWN)
